@@ -792,7 +792,7 @@ pub fn render(tokens: &[String], trivia: Trivia, rng: &mut Rng) -> String {
                         8 => s.push_str("\r\n"),
                         9 => s.push_str("\n  "),
                         10 => s.push_str(" // c\n"),
-                        11 => s.push_str(" /* c */ "),
+                        11 => s.push_str([" /* c */ ", " /** doc **/ ", "/***/", " /* a **/ ", "/*****/ ", " /*//*/ x */*/ "][rng.below(6)]),
                         12 => s.push_str("\n#define FLAG\n"),
                         13 => s.push_str(" /* é€😀 */"),
                         14 => s.push_str("\n// αβγ\n"),
